@@ -15,10 +15,13 @@ CFG = {
             "over a real loopback TCP connection with record marking to a server started with NewServer+Listen or (40%) "
             "AbsfsNFS.Export: counts {1, max-1, max, max+1, ts, ts+1, the largest count whose call fits a 1 MiB record, that "
             "+1 and +4 (record 1 048 580: dropped with the connection), random}, a NULL call after every probe to see whether "
-            "the connection survived; then 2..3 PHASES: TransferSize is changed again at runtime (UpdateTuningOptions, 25% "
+            "the connection survived; the maxima again with the call record FRAGMENTED (RFC 5531 record marking lets a client "
+            "use any fragmentation): WRITE(wtmax) in fragments of 64 KiB, 8 KiB, 1 KiB, 512 and 100 bytes (for wtmax < 64 KiB: one "
+            "of {1024, 512, 100} and one of {64, 16, 4, 1}), WRITE(wtpref), the exactly-1-MiB record and the 1 MiB + 4 record in "
+            "small fragments, READ(rtmax) in 4..40-byte fragments, 0..3 empty non-final fragments interleaved; then 2..3 PHASES: TransferSize is changed again at runtime (UpdateTuningOptions, 25% "
             "UpdateExportOptions; values from {512, 2048, 8192, 65536, 100000, 300000, cap, 2^20, 4 MiB, 2^32, random}, raises and "
             "falls) while one connection stays open, and after each change FSINFO + WRITE(wtmax) + WRITE(wtpref) + READ(rtmax) "
-            "are made on that old connection and FSINFO + WRITE(wtmax) + READ(rtmax) on a fresh one (two corpus cases keep "
+            "are made on that old connection (random fragmentation) and FSINFO + WRITE(wtmax) + READ(rtmax) on a fresh one (two corpus cases keep "
             "one connection across 5..7 changes). Payload bytes are not part of the Coq term (sizes, codes and counts are). Non-trivial = "
             "a WRITE of exactly wtmax bytes accepted and at least one refused WRITE, clamped READ or dropped record; distinct = "
             "distinct Coq term",
@@ -33,7 +36,9 @@ CFG = {
                   "prefs and mults <= maxima), C23_write_accepted (count <= wtmax never takes the count check), "
                   "C23_write_inval_causes (INVAL then only for 64-bit offset overflow or a symlink handle), C23_write_served "
                   "(status OK, full count, FILE_SYNC, data durable), C23_read_served (min(count, size-offset) >= 1 bytes), "
-                  "C23_record_fits (72 + 2 x 400 + wtmax <= 1 MiB). On the width-faithful Model/Fsinfo32.v (uint32 "
+                  "C23_record_fits (72 + 2 x 400 + wtmax <= 1 MiB; this is the record PAYLOAD, i.e. the reassembled call - the "
+                  "4-byte fragment markers are framing, not record bytes, and the limit of ReadRecord applies to the payload "
+                  "whatever fragmentation the client uses: the correspondence sends the maxima in 1..10 000 fragments). On the width-faithful Model/Fsinfo32.v (uint32 "
                   "conversions of handleFsinfo / handleWrite read from the source by astfacts): C23_holds (the whole statement), "
                   "C23_models_agree (equal to Model/Srv.v below 2^32). Correspondence evaluated in Coq: FSINFO numbers, WRITE "
                   "status/count, READ count, record drop, handler level and TCP, against both models, plus the statement on the "
